@@ -2071,6 +2071,77 @@ def parking_sites(prog):
     return list(uniq.values())
 
 
+def _entry_key(prog, C, f, g, name, at, state, depth=0):
+    """key expression k if the local `name` holds the entry self.<state>[k]
+    at node `at` whatever definition reaches it: read from the container
+    (`self.<state>[k]` / `.get(k)`), answered by an accessor method of the
+    class (`self._entry(k)`, which returns the entry of its parameter on every
+    path), or created and stored as `self.<state>[k] = name` before `at`"""
+    from ..flow import reaching_defs
+    keys = []
+    defs = reaching_defs(g, name, at)
+    if not defs:
+        return None
+    for dn, dv in defs:
+        if dv is None:
+            return None
+        k = None
+        ch = _self_chain(dv)
+        if ch and ch[0] == state and len(ch[1]) == 1:
+            k = ch[1][0]
+        elif isinstance(dv, ast.Call) and depth < 2 and \
+                call_name(dv).startswith('self.') and \
+                call_name(dv).count('.') == 1:
+            h = prog.resolve_call(f, dv, C)
+            b = _bind(h, dv) if h is not None and h.cls is not None else None
+            p = _accessor_param(prog, C, h, state, depth + 1) \
+                if b is not None else None
+            if p is not None and p in b[0]:
+                k = b[0][p]
+        else:
+            # created here, registered on the way to `at`
+            for m in g.nodes:
+                if m.kind == 'stmt' and isinstance(m.ast, ast.Assign) and \
+                        isinstance(m.ast.value, ast.Name) and \
+                        m.ast.value.id == name and \
+                        m.id in g.reachable(dn.id, no_back=True) and \
+                        must_pass(g, dn.id, at, [m.id]):
+                    for t in m.ast.targets:
+                        ch = _self_chain(t)
+                        if ch and ch[0] == state and len(ch[1]) == 1:
+                            k = ch[1][0]
+        if k is None:
+            return None
+        keys.append(k)
+    if len({unparse(k) for k in keys}) != 1:
+        return None
+    return keys[0]
+
+
+def _accessor_param(prog, C, h, state, depth):
+    """name of the parameter p of method h if every `return` of h answers the
+    entry self.<state>[p]"""
+    g = cfg_of(h)
+    rets = [n for n in g.stmt_nodes() if n.kind == 'stmt' and
+            isinstance(n.ast, ast.Return)]
+    if not rets:
+        return None
+    ps = set()
+    for n in rets:
+        v = n.ast.value
+        k = None
+        if isinstance(v, ast.Name):
+            k = _entry_key(prog, C, h, g, v.id, n.id, state, depth)
+        elif v is not None:
+            ch = _self_chain(v)
+            if ch and ch[0] == state and len(ch[1]) == 1:
+                k = ch[1][0]
+        if not (isinstance(k, ast.Name) and k.id in h.params):
+            return None
+        ps.add(k.id)
+    return ps.pop() if len(ps) == 1 else None
+
+
 def enabling_stores(prog, K, state, tail):
     """[(class, f, stmt, key expr)]: stores which set self.<state>[k]<tail>
     to something that is not a falsy constant"""
@@ -2097,6 +2168,16 @@ def enabling_stores(prog, K, state, tail):
                             ch = _self_chain(ast.Subscript(
                                 value=_resolve_names(g, t.value, sn.id),
                                 slice=t.slice, ctx=ast.Load()))
+                    if ch is None and isinstance(t, ast.Subscript) and \
+                            isinstance(t.value, ast.Name):
+                        # entry = self._accessor(k) / entry created and
+                        # stored as self.<state>[k] on the way: entry[<tail>]
+                        g = cfg_of(f)
+                        sn = I.stmt_node_map(g).get(id(s))
+                        k = _entry_key(prog, C, f, g, t.value.id, sn.id,
+                                       state) if sn is not None else None
+                        if k is not None:
+                            ch = (state, [k, t.slice])
                     if not ch or ch[0] != state or not ch[1] or \
                             not isinstance(t, ast.Subscript):
                         continue
